@@ -31,7 +31,7 @@ pub struct Contour {
 }
 
 /// Closed contours of a path; zero-length lines are dropped (they carry no geometry).
-fn close_contour(start: [f64; 2], cur: [f64; 2], mut segs: Vec<Seg>) -> Contour {
+pub(crate) fn close_contour(start: [f64; 2], cur: [f64; 2], mut segs: Vec<Seg>) -> Contour {
     if cur != start {
         segs.push(Seg::Line(cur, start));
     }
@@ -136,7 +136,7 @@ impl OutlinePen for RecPen {
 
 /// Equal as closed curves: identical segment cycle up to the choice of start.
 /// Returns Some(rotation) when equal.
-fn contour_eq(a: &Contour, b: &Contour) -> Option<usize> {
+pub(crate) fn contour_eq(a: &Contour, b: &Contour) -> Option<usize> {
     if a.segs.len() != b.segs.len() {
         return None;
     }
